@@ -137,9 +137,23 @@ def run_prelude(w):
     executions only - a fresh `python -m iodata` has no history, and the results must agree nevertheless."""
     from iodata.__main__ import convert
 
+    w.setdefault("_keepalive", [])
     for k, pre in enumerate(w.get("prelude") or []):
         disk = seams.SimDisk(log_events=False)
         disk.put(pre["input_name"], raw_input(pre["input_file"]))
+        if pre.get("suspend"):
+            # a frame iterator that was started earlier and is still alive while the measured conversion runs
+            import iodata
+
+            with seams.Installed(disk), warnings.catch_warnings():
+                warnings.simplefilter("ignore")
+                try:
+                    it = iodata.load_many(pre["input_name"], fmt=pre.get("infmt"))
+                    next(it)
+                    w["_keepalive"].append((it, disk))
+                except Exception:  # noqa: BLE001
+                    pass
+            continue
         with seams.Installed(disk), warnings.catch_warnings():
             warnings.simplefilter("ignore")
             try:
@@ -153,7 +167,8 @@ def make_disk(w, data):
     disk = seams.SimDisk(buffer_size=knobs.get("buffer_size", 8192), chunk_size=knobs.get("chunk_size"))
     for link, target in (w.get("symlinks") or {}).items():
         disk.symlink(link, target)
-    disk.put(w["input_name"], data)
+    if not w.get("input_missing"):
+        disk.put(w["input_name"], data)
     if w.get("target_pre"):
         disk.put(w["output_name"], PRE)
     disk.plans[w["output_name"]] = seams.WritePlan.from_faults(w.get("output_faults"))
@@ -226,7 +241,7 @@ def run_main(w, data):
 def run_subprocess(w, data):
     tmp = tempfile.mkdtemp(prefix="c18-")
     try:
-        files = {w["input_name"]: base64.b64encode(data).decode()}
+        files = {} if w.get("input_missing") else {w["input_name"]: base64.b64encode(data).decode()}
         if w.get("target_pre"):
             files[w["output_name"]] = base64.b64encode(PRE).decode()
         plan = {"verif": common.VERIF, "files": files, "plans": {w["output_name"]: w.get("output_faults") or []},
@@ -259,7 +274,8 @@ def run_subprocess(w, data):
 
 
 def _v(cls, msg, w, extra=""):
-    return {"cls": cls, "sig": f"{cls}|{extra}", "msg": msg + f" [argv: {' '.join(_argv(w)[1:])}]", "trace": copy.deepcopy(w)}
+    trace = copy.deepcopy({k: v for k, v in w.items() if not k.startswith("_")})
+    return {"cls": cls, "sig": f"{cls}|{extra}", "msg": msg + f" [argv: {' '.join(_argv(w)[1:])}]", "trace": trace}
 
 
 def compare(w, api, other, label):
@@ -296,6 +312,13 @@ def compare(w, api, other, label):
 
 
 def execute(w, with_subprocess=None):
+    try:
+        return _execute(w, with_subprocess)
+    finally:
+        w.pop("_keepalive", None)
+
+
+def _execute(w, with_subprocess=None):
     if _GUARD is not None and _GUARD.changed():
         _GUARD.restore()  # every run starts from the pristine module state (determinism across workers)
     data = input_bytes(w)
@@ -343,6 +366,8 @@ def gen_workload(rng, tier):
             # often a file of the same format (shared parser state is the likeliest channel between conversions)
             pf, pfmt, pouts = rng.choice(same) if same and rng.random() < 0.6 else rng.choice(PAIRS + INLINE_PAIRS)
             w["prelude"].append({"input_file": pf, "input_name": pf, "output_name": rng.choice(pouts), "infmt": pfmt})
+            if hasattr(FORMAT_MODULES.get(c07.natural_fmt(pf)), "load_many") and rng.random() < 0.4:
+                w["prelude"][-1]["suspend"] = True
     if hasattr(FORMAT_MODULES[mod], "load_many") and rng.random() < 0.5:
         w["many"] = True
     if infmt is None and rng.random() < 0.25:
@@ -378,6 +403,8 @@ def gen_workload(rng, tier):
         w["outfmt"] = None
     if rng.random() < 0.05:
         w["input_name"] = rng.choice(["in.unknown", "in.xyz", "in.fchk"])
+    if rng.random() < 0.04:
+        w["input_missing"] = True  # the operating system refuses to open the input: the API raises its OSError
     r = rng.random()
     data0 = raw_input(f)
     if r < 0.35:
